@@ -75,10 +75,10 @@ theorem C04_completion_barrier (s : State) :
 /-- **No overlap.** The next invocation's handler cannot start while this one runs: handlers are
     taken from the queue only when the handler thread is idle. -/
 theorem C04_no_overlap (s : State) (lifo : Bool) (ho : s.orch ≠ .idle)
-    (h1 : orchResume s = none) (h2 : shutResume s s.shutFrom = none) :
+    (h1 : orchResume s = none) (h2 : shutResume s s.shutFrom = none) (h3 : restoreResume s = none) :
     platformMove lifo s = firstSome (flightMove s) s.flights := by
   unfold platformMove
-  simp only [orElse', h1, h2]
+  simp only [orElse', h1, h2, h3]
   cases hq : s.queue <;> cases hoo : s.orch <;> simp_all
 
 /-- each arrival at the invoke barriers comes from the intended transition only: the response gate
